@@ -89,7 +89,7 @@ theorem save_extends (P : Params V) (L : Layout) (d : Doc V) : Extends d.st (sav
     · exact hroll _
     · rename_i rows _
       have hcommit : Extends d.st (commit P L d (prep d) w (w.refs.set (prep d).xid (.raw (w.len - (prep d).st2.start) 0)) rows) := by
-        refine ⟨⟨e ++ [⟨w.len, (prep d).xid, 0, P.xrefVal, []⟩], ?_, ?_⟩,
+        refine ⟨⟨e ++ [⟨w.len, (prep d).xid, 0, P.xrefRec d.tr (prep d).infoRef (saveInfoOf (prep d) w (w.refs.set (prep d).xid (.raw (w.len - (prep d).st2.start) 0)) rows), []⟩], ?_, ?_⟩,
           ⟨[⟨w.len, [⟨0, rows⟩], (prep d).size, d.tr.prev, d.tr.root, (prep d).infoRef⟩], ?_, ?_⟩, ?_, ?_⟩
         · simp only [commit]; rw [a, p1]; simp
         · intro o ho
